@@ -83,6 +83,8 @@ type LoopSpec struct {
 	Modifies  []Expr
 	Unfolds   []Expr
 	Havoc     []string // extra cells to havoc (normally computed)
+	Asserts   []Clause // intermediate facts proved at the loop head after the applies, then assumed (cuts)
+	Applies   []Expr   // lemma applications at the loop head (after the invariants are assumed)
 	Unroll    int      // >0: execute the loop concretely up to N iterations with an unwinding assertion
 }
 
@@ -103,6 +105,7 @@ type FuncSpec struct {
 	HasMod   bool // a modifies clause (possibly empty "modifies nothing") was given
 	Loops    map[int]*LoopSpec
 	Unfolds  []Expr
+	Applies  []Expr // lemma applications at function entry
 	Inline   bool
 	Trusted  bool
 	Pure     bool
@@ -465,7 +468,7 @@ var clauseKW = map[string]bool{
 	"spec": true, "func": true, "lemma": true, "guarded": true,
 	"requires": true, "ensures": true, "modifies": true, "ghost": true, "loop": true,
 	"invariant": true, "decreases": true, "unfold": true, "inline": true, "trusted": true,
-	"pure": true, "atomic": true, "param": true, "induction": true, "havoc": true, "nopanic": true, "unroll": true, "known-finding": true,
+	"pure": true, "atomic": true, "param": true, "induction": true, "havoc": true, "nopanic": true, "unroll": true, "known-finding": true, "apply": true, "assert": true,
 }
 
 type rawClause struct {
@@ -583,6 +586,15 @@ func ParseContractFile(path string, src []byte, ps *PkgSpec) error {
 			a := strings.SplitN(parts[0], ".", 2)
 			b := strings.SplitN(parts[2], ".", 2)
 			ps.Guards = append(ps.Guards, &GuardSpec{Type: a[0], Fields: []string{a[1]}, Mutex: b[1]})
+		case "assert":
+			c, err := mkClause(rc)
+			if err != nil {
+				return err
+			}
+			if curLoop == nil {
+				return fmt.Errorf("%s:%d: assert outside loop", path, rc.line)
+			}
+			curLoop.Asserts = append(curLoop.Asserts, c)
 		case "requires", "ensures", "invariant", "atomic":
 			c, err := mkClause(rc)
 			if err != nil {
@@ -670,6 +682,19 @@ func ParseContractFile(path string, src []byte, ps *PkgSpec) error {
 			}
 			if !found {
 				return fmt.Errorf("%s:%d: known-finding: no ensures clause labelled %q", path, rc.line, label)
+			}
+		case "apply":
+			es, err := exprList(rc)
+			if err != nil {
+				return err
+			}
+			switch {
+			case cur == nil:
+				return fmt.Errorf("%s:%d: apply outside func", path, rc.line)
+			case curLoop != nil:
+				curLoop.Applies = append(curLoop.Applies, es...)
+			default:
+				cur.Applies = append(cur.Applies, es...)
 			}
 		case "unroll":
 			if curLoop == nil {
